@@ -9,7 +9,9 @@ arms / dispatch blocks are gated by exactly their feature, the compile_error! gu
 feature", imports are used whenever they are compiled.  Every model is replayed with a real
 `cargo check` of that subset (warnings denied) before it is reported."""
 import itertools
+import copy
 import json
+import re
 import os
 import random
 import shutil
@@ -359,6 +361,39 @@ def build_queries(facts):
                 t = next((f for f in FEATURES if f.lower() == mod.replace('_', '')), None)
                 if t:
                     qs.append(dict(kind='dispatch-gate', where=f"lib.rs:{pth['line']}", what=f'dispatch of {t} is not compiled exactly under feature {t}', formula=z3.Xor(zcfg(pth['cfg']), FV[t]), trait=t))
+    # 8. partner gates: a statement compiled only under feature X (outside the dispatch of X itself) must leave, once every
+    #    `traits.contains(&Trait::X)` / `map.get(&Trait::X)` / `== Trait::X` in it is replaced by what it can only be when the variant
+    #    does not exist, exactly the statement that is compiled under not(X) next to it (or nothing) — otherwise a build without X
+    #    generates different code for the traits that are enabled.  A statement that only defines / assigns locals which are
+    #    themselves read only under X is inert as well.
+    for m, f in facts.files.items():
+        eff = facts.modcfg.get(m, z3.BoolVal(True))
+        gs = f.get('gated_stmts', [])
+        for g in gs:
+            here = g['cfg_here']
+            outer = z3.And(eff, zcfg(g['cfg_outer']))
+            where = f"{f['path']}:{g['line']}"
+            if len(here) == 1 and 'feature' in here[0] and here[0]['feature'] in FV:
+                X = here[0]['feature']
+                sib = [o for o in gs if o['block'] == g['block'] and o.get('fn') == g.get('fn') and abs(o['idx'] - g['idx']) == 1 and o['cfg_here'] == [{'not': {'feature': X}}]]
+                res = g['residual'][X]['stmts']
+                want = [sib[0]['tokens']] if sib else []
+                inert = z3.BoolVal(res == want)
+                if res != want and g.get('local_only') is not None and g['local_only']:
+                    uses = []
+                    for n in g['local_only']:
+                        uses += [z3.And(eff, zcfg(p_['cfg'])) for p_ in f['paths'] if p_.get('fn') == g.get('fn') and p_['segments'] == [n] and p_['line'] != g['line']]
+                        uses += [z3.And(eff, zcfg(mi['cfg'])) for mi in f['macro_idents'] if mi.get('fn') == g.get('fn') and mi['name'] == n and mi['line'] != g['line']]
+                    inert = z3.And([z3.Implies(u, FV[X]) for u in uses]) if uses else z3.BoolVal(True)
+                qs.append(dict(kind='partner-gate', where=where, feature=X, what=f'statement compiled only under feature {X} does not reduce to its not({X}) counterpart when Trait::{X} cannot be requested: '
+                               f'residual {res!r} vs {want!r}', formula=z3.And(outer, z3.Not(FV[X]), SOME, z3.Not(inert))))
+            elif len(here) == 1 and 'not' in here[0] and here[0]['not'].get('feature') in FV:
+                X = here[0]['not']['feature']
+                sib = [o for o in gs if o['block'] == g['block'] and o.get('fn') == g.get('fn') and abs(o['idx'] - g['idx']) == 1 and o['cfg_here'] == [{'feature': X}]]
+                qs.append(dict(kind='partner-gate', where=where, feature=X, what=f'statement compiled only under not({X}) has no cfg(feature = "{X}") counterpart next to it',
+                               formula=z3.And(outer, z3.Not(FV[X]), SOME, z3.BoolVal(not sib))))
+            else:
+                facts.undecided_gated = getattr(facts, 'undecided_gated', []) + [f"{where}: cfg {here}"]
     return qs
 
 
@@ -429,6 +464,15 @@ def main(tier, seed, keep=False):
         kinds = {q['kind'] for q in ql}
         if kinds == {'rejection-gate'}:
             ok, detail = replay_rejection(list(subset), ql)
+            if ok is None:
+                inconclusive_replays.append((subset, ql, detail))
+            elif not ok:
+                violations.append((subset, ql, detail))
+            else:
+                refuted.append((subset, [q['what'] for q in ql]))
+            continue
+        if kinds == {'partner-gate'}:
+            ok, detail = replay_partner(list(subset), ql)
             if ok is None:
                 inconclusive_replays.append((subset, ql, detail))
             elif not ok:
@@ -534,6 +578,44 @@ def replay_rejection(subset, ql):
     if outs[0] != outs[1]:
         return False, f'input:\n{src}\nunder features {subset}: refused={outs[0][0]} {outs[0][1]}\nunder all features: refused={outs[1][0]} {outs[1][1]}'
     return True, 'same outcome under both feature sets'
+
+
+def replay_partner(subset, ql):
+    """differential replay of a partner-gate model: the real macro built with exactly `subset` against the real macro built with all
+    twelve features, on every E2 corpus request that names only enabled traits; any impl whose tokens differ reproduces the model"""
+    from . import e2
+    exe_s, err = e2.build_expander(list(subset), target='target-expander-c18')
+    if exe_s is None:
+        return None, 'expander does not build with features ' + ' '.join(subset) + ':\n' + err[-1500:]
+    exe_f, err = e2.build_expander(list(FEATURES), target='target-expander-c18')
+    if exe_f is None:
+        return None, 'expander does not build with all features:\n' + err[-1500:]
+    reqs, seen = [], set()
+    for tier in ('quick', 'thorough'):
+        for r in e2.c11_corpus(tier, 0) + e2.c12_corpus(tier, 0):
+            src = r.source(with_derive=False)
+            named = {t for t, _ in r.traits}
+            if src in seen or not named <= set(subset):
+                continue
+            seen.add(src)
+            r2 = copy.copy(r)
+            r2.rid = f'p{len(reqs)}'
+            reqs.append(r2)
+    a, b = e2.expand(exe_s, reqs), e2.expand(exe_f, reqs)
+    diffs = []
+    for r in reqs:
+        x, y = a.get(r.rid, {}), b.get(r.rid, {})
+        if 'impls' not in y:
+            continue       # the full build refuses the request: nothing to compare
+        tx = sorted(i['tokens'] for i in x.get('impls', [])) if 'impls' in x else [x.get('error', 'panic')]
+        ty = sorted(i['tokens'] for i in y['impls'])
+        if tx != ty:
+            diffs.append((r.source(with_derive=False), tx, ty))
+    if not diffs:
+        return None, f'{len(reqs)} corpus requests expand identically under {list(subset)} and under all features; the model is not reproduced by this corpus'
+    src, tx, ty = diffs[0]
+    return False, (f'{len(diffs)} of {len(reqs)} requests expand differently with features {list(subset)} than with all features, e.g.\n{src}\n--- subset build:\n' + '\n'.join(tx)[:1500]
+                   + '\n--- all-features build:\n' + '\n'.join(ty)[:1500])
 
 
 def replay_trait_name(subset, ql):
